@@ -27,6 +27,7 @@ void vrt_set_tid(int t); /* harness threads may choose a small stable id (e.g. w
 /* ---- schedule perturbation (effective only when the sync wrappers are linked) ---- */
 void vrt_perturb(uint32_t seed, int permille, int max_usleep); /* permille=0 disables */
 void vrt_perturb_target(int target);
+void vrt_trace_jitter(unsigned seed, int permille, int max_us); /* random sleeps of the emitting thread after trace events */
 void vrt_perturb_role_where(int where); /* 0 (default): delay after each semaphore wait; 1: after each semaphore post */
 void vrt_perturb_role(uintptr_t lo, uintptr_t hi, int permille, int usleep_us); /* delay only the threads whose stack contains code in [lo,hi) after each semaphore wait */ /* 0 = all threads, 1 = only the thread that first used the runtime (the application thread), 2 = all others */
 
